@@ -69,6 +69,12 @@ BASES = {
     "cat3_x_cat2": (S.schema2("cat3_x_cat2", A3, B2, weighted=True, squared=True), (1, 2), (None,), 2, 2, "full"),
     "cat3_x_cat2_num": (S.schema2("cat3_x_cat2_num", A3, B2, numeric=dict(NUM)), (1,), (None, 1, 3), 1, 2, "rows"),
     "cat3_x_mr3": (S.schema2("cat3_x_mr3", A3, M3), (1,), (None,), 1, 2, "mrcols"),
+    # MR with a derived (inserted) item on rows / on columns; cat(3) keeps the table non-square
+    "mrd_x_cat3": (S.schema2("mrd_x_cat3", S.mr("m", 2, derived=[{"pos": 1, "alias": "m_any", "name": "Any", "members": ["m_1", "m_2"],
+                                                                   "anchor": {"position": "after", "alias": "m_1"}}]),
+                             S.cat("b", 3, "last", values=[2, 1, 3], names=["y", "x", "z"])), (1,), (None,), 1, 2, "mrrows"),
+    "cat3_x_mrd": (S.schema2("cat3_x_mrd", A3, S.mr("n", 2, derived=[{"pos": 0, "alias": "n_any", "name": "Any", "members": ["n_1", "n_2"],
+                                                                       "anchor": "top"}])), (1,), (None,), 1, 2, "mrcols"),
     "mr2_x_cat2": (S.schema2("mr2_x_cat2", M2, B2), (1,), (None,), 1, 2, "mrrows"),
     "cat3_x_cat2_x6": (S.schema2("cat3_x_cat2_x6", A3, B2), (1,), (None,), 2, 3, "rows"),
     "cat3_1d": (Schema("cat3_1d", [A3], [("cat", 0)], weighted=True), (1, 2), (None,), 3, 4, "strand"),
